@@ -250,6 +250,74 @@ func checkC07(e *core.Env) {
 		}
 	})
 
+	// large messages (above any plausible "small message" fast path: 64 KiB..1 MiB) made of many fields, cut
+	// after the size preface, on field boundaries (where the prefix that arrived is a valid encoding of a smaller
+	// message) and inside fields, with each ending kind
+	e.Cases("client-cut-large", e.N(4, 40), func(i int, r *rand.Rand) {
+		var msgs []*tpb.Message
+		var raw [][]byte   // encoding of each message as a concatenation of single-field encodings
+		var bounds [][]int // field boundaries inside each encoding
+		for k := 0; k < 3; k++ {
+			target := 300
+			if k == 1 {
+				target = pick(r, 64<<10+1, 70000, 100000, 300000, 1<<20)
+			}
+			var enc []byte
+			var bs []int
+			for f := 0; len(enc) < target; f++ {
+				part := &tpb.Message{Headers: map[string][]byte{fmt.Sprintf("k%d-%d", k, f): randBytes(r, 200+r.Intn(3000))}}
+				if f == 0 {
+					part = &tpb.Message{Payload: randBytes(r, 100), Count: int32(i*10 + k)}
+				}
+				b, _ := proto.Marshal(part)
+				enc = append(enc, b...)
+				bs = append(bs, len(enc))
+			}
+			m := new(tpb.Message)
+			if err := proto.Unmarshal(enc, m); err != nil {
+				e.Internal("client-cut-large: own encoding does not decode: %v", err)
+				return
+			}
+			msgs, raw, bounds = append(msgs, m), append(raw, enc), append(bounds, bs)
+		}
+		tr := &httpgrpc.HttpTrailer{Message: "OK"}
+		fb := &framedBody{msgs: msgs, trailer: tr}
+		var b bytes.Buffer
+		var cuts []int
+		for k, enc := range raw {
+			start := b.Len()
+			frame32(&b, int32(len(enc)), enc)
+			fb.msgEnds = append(fb.msgEnds, b.Len())
+			cuts = append(cuts, start, start+2, start+4, start+5, b.Len()-1, b.Len())
+			for n, fbnd := range bounds[k] {
+				if n < 6 || n%7 == 0 || n >= len(bounds[k])-3 {
+					cuts = append(cuts, start+4+fbnd, start+4+fbnd-1, start+4+fbnd+1)
+				}
+			}
+			for n := 0; n < 6; n++ {
+				cuts = append(cuts, start+4+r.Intn(len(enc)))
+			}
+		}
+		tp, _ := proto.Marshal(tr)
+		frame32(&b, -int32(len(tp)), tp)
+		fb.okEnd = b.Len()
+		fb.bytes = b.Bytes()
+		cuts = append(cuts, fb.okEnd-1, fb.okEnd)
+		for _, cut := range cuts {
+			if cut < 0 || cut > len(fb.bytes) {
+				continue
+			}
+			for ei, end := range endings {
+				step := []int{0, 4096, 1000}[(cut+ei)%3]
+				res := feedClient(&cutBody{data: append([]byte{}, fb.bytes[:cut]...), step: step, endErr: end.err}, 200)
+				e.Eval(fmt.Sprintf("client-cut-large|%d|%s", cut*16/(len(fb.bytes)+1), end.name), true)
+				e.Count("cuts", 1)
+				w := map[string]any{"body_len": len(fb.bytes), "cut": cut, "ending": end.name, "message_sizes": []int{len(raw[0]), len(raw[1]), len(raw[2])}, "read_step": step, "got_messages": len(res.msgs), "got_err": fmt.Sprint(res.err)}
+				judgeClientDecode(e, "client-cut-large/"+end.name, res, fb, cut, w)
+			}
+		}
+	})
+
 	// single-response (client-streaming) replies cut at every offset
 	e.Cases("client-cut-single", e.N(10, 120), func(i int, r *rand.Rand) {
 		m := genMsg(r, fmt.Sprintf("c07single-%d", i), false)
